@@ -15,7 +15,8 @@ def negate(e):
     if isinstance(e, ast.UnaryOp) and isinstance(e.op, (ast.Not, ast.Invert)):
         return e.operand
     if isinstance(e, ast.Compare) and len(e.ops) == 1 and type(e.ops[0]) in NEG:
-        return ast.Compare(left=e.left, ops=[NEG[type(e.ops[0])]()], comparators=e.comparators)
+        from .model import CanonCompare
+        return CanonCompare().visit(ast.Compare(left=e.left, ops=[NEG[type(e.ops[0])]()], comparators=e.comparators))
     return ast.UnaryOp(op=ast.Not(), operand=e)
 
 
